@@ -45,7 +45,11 @@ func furtherDIB(ia uint16) []byte {
 	return []byte{8, 0xFE, byte(ia >> 8), byte(ia), ^byte(ia >> 8), ^byte(ia), 0x5A, 0xA5}
 }
 
-func descrRes(ia uint16) []byte { return frame(0x0204, devDIB(ia), svcDIB, furtherDIB(ia)) }
+// descrRes: device information, service families, an EMPTY block of a known type (length 2: legal,
+// carries nothing, dropped by the decoder) and a manufacturer-data block.
+func descrRes(ia uint16) []byte {
+	return frame(0x0204, devDIB(ia), svcDIB, []byte{2, 0x04}, furtherDIB(ia))
+}
 func searchRes(ia uint16) []byte {
 	return frame(0x0202, []byte{8, 1, 192, 0, 2, byte(ia), 0x0e, 0x57}, devDIB(ia), svcDIB)
 }
